@@ -504,10 +504,14 @@ func (t *transpiler) evaluateStringSubscript(subscript parser.StringSubscript, v
 	if err != nil {
 		return expressionResult{}, err
 	}
-	endIndexResult, err := t.evaluateIndex(subscript.EndIndex(), true)
+	endIndexResult := startIndexResult // A single index is evaluated only once.
 
-	if err != nil {
-		return expressionResult{}, err
+	if subscript.HasEndIndex() {
+		endIndexResult, err = t.evaluateIndex(subscript.EndIndex(), true)
+
+		if err != nil {
+			return expressionResult{}, err
+		}
 	}
 	value := subscript.Value()
 	str, err := t.evaluateExpression(value, true)
